@@ -19,6 +19,7 @@ import (
 	"sort"
 	"strconv"
 	"strings"
+	"sync"
 	"time"
 
 	"github.com/sirupsen/logrus"
@@ -45,6 +46,8 @@ type op struct {
 	Path     string            `json:"path"`
 	Headers  map[string]string `json:"headers"`
 	Ms       int               `json:"ms"`
+	N        string            `json:"n"`     // elapse: how far the record counter advances
+	Burst    []op              `json:"burst"` // burst: requests served concurrently (the first one is started Ms earlier)
 }
 
 type ueState struct {
@@ -154,6 +157,7 @@ type result struct {
 	CdrFiles      map[string]string                 `json:"cdrfiles"`
 	Notifications []notif                           `json:"notifications"`
 	Goroutines    int                               `json:"goroutines"`
+	Sub           []*result                         `json:"sub,omitempty"`
 	ErrLog        []string                          `json:"errlog,omitempty"`
 }
 
@@ -448,6 +452,51 @@ func doOp(st *stack.Stack, tracker *cdrTracker, idx int, line []byte, timeout ti
 	case "sleep":
 		isHTTP = false
 		time.Sleep(time.Duration(o.Ms) * time.Millisecond)
+	case "elapse":
+		// stands for n records opened for subscribers outside the history
+		isHTTP = false
+		n, err := strconv.ParseUint(o.N, 10, 64)
+		if err != nil {
+			res.Error = "bad n"
+		} else {
+			self := chf_context.GetSelf()
+			self.Lock()
+			self.LocalRecordSequenceNumber += n
+			self.Unlock()
+		}
+	case "burst":
+		isHTTP = false
+		res.Sub = make([]*result, len(o.Burst))
+		var wg sync.WaitGroup
+		for i := range o.Burst {
+			b := o.Burst[i]
+			var m, pth string
+			var bd []byte
+			switch b.Op {
+			case "create":
+				m, pth, bd = "POST", ccPrefix+"/chargingdata", subst(b.Body)
+			case "update":
+				m, pth, bd = "POST", ccPrefix+"/chargingdata/"+url.PathEscape(b.Ref)+"/update", subst(b.Body)
+			case "release":
+				m, pth, bd = "POST", ccPrefix+"/chargingdata/"+url.PathEscape(b.Ref)+"/release", subst(b.Body)
+			case "recharge":
+				m, pth = "PUT", ccPrefix+"/recharging/"+url.PathEscape(b.Param)
+			}
+			wg.Add(1)
+			go func(i int) {
+				defer wg.Done()
+				r := &result{I: i, Op: b.Op, Body: ""}
+				t0 := time.Now()
+				status, hdr, rb, hung := st.Do(m, pth, bd, b.Headers, timeout)
+				r.Status, r.Hung, r.Location, r.Body = status, hung, hdr.Get("Location"), parseBody(rb)
+				r.ElapsedUs = time.Since(t0).Microseconds()
+				res.Sub[i] = r
+			}(i)
+			if i == 0 && o.Ms > 0 {
+				time.Sleep(time.Duration(o.Ms) * time.Millisecond)
+			}
+		}
+		wg.Wait()
 	case "create":
 		method, path, body = "POST", ccPrefix+"/chargingdata", subst(o.Body)
 	case "update":
